@@ -4,7 +4,7 @@ from hypothesis import strategies as st
 
 from ..core import Clause, Discard, Violation, call, expect_raises, require
 from ..oracles import si_ref
-from ..strategies import (bank_specs, build_bank, build_si, build_window, gabor_degenerate, gammatone_degenerate,
+from ..strategies import (log_floor_configs, with_config, bank_specs, build_bank, build_si, build_window, gabor_degenerate, gammatone_degenerate,
                           make_signal, si_shift_bound, si_specs, signal_specs)
 
 PROPERTY = "C03"
@@ -167,12 +167,13 @@ def _cases(draw, dtypes=("f64", "f64", "f32", "f16", "ld")):
         n = draw(st.sampled_from([4097, 8193]))
     prior = draw(st.one_of(st.none(), st.none(), st.fixed_dictionaries({
         "sig": signal_specs(st.integers(0, 300)), "chunked": st.booleans()})))
-    return {"comp": comp, "dtype": draw(st.sampled_from(list(dtypes))), "sig": draw(signal_specs(st.just(n))), "prior": prior}
+    return {"comp": comp, "dtype": draw(st.sampled_from(list(dtypes))), "sig": draw(signal_specs(st.just(n))), "prior": prior,
+            "config": draw(log_floor_configs())}
 
 
 def clauses(tier):
     return [
-        Clause("definition", check_definition,
+        Clause("definition", with_config(check_definition),
                "non-trivial = >= 2 frames and at least one full overlap-save block (N >= D - M + 1); distinct by full case",
                _cases, quick=1000, thorough=40000, fuzz_runs=2500),
     ]
